@@ -190,14 +190,15 @@ func (m *Manager) ClearPeer(peerID core.PeerID) {
 	delete(m.requestsByPeer, peerID)
 
 	for i, rs := range m.requests {
-		for j, r := range rs {
-			if r.PeerID == peerID {
-				// Eject request.
-				rs[j] = rs[len(rs)-1]
-				m.requests[i] = rs[:len(rs)-1]
-				break
+		// Eject every request of the peer: after a request expires the same
+		// piece can be reserved for the peer again, so there may be several.
+		var kept []*Request
+		for _, r := range rs {
+			if r.PeerID != peerID {
+				kept = append(kept, r)
 			}
 		}
+		m.requests[i] = kept
 	}
 }
 
